@@ -835,10 +835,17 @@ class Context:
             # json.loads accepts NaN, Infinity and -Infinity; JSON does not
             raise ValueError(f"Unexpected token {name}")
 
+        def integer_token(token):
+            # "-0" is the negative zero, which a host int cannot hold
+            n = int(token)
+            return -0.0 if n == 0 and token.startswith("-") else n
+
         def parse_fn(*args):
             text = to_string(args[0]) if args else ""
             try:
-                py_value = json.loads(text, parse_constant=reject_constant)
+                py_value = json.loads(
+                    text, parse_constant=reject_constant, parse_int=integer_token
+                )
                 return ctx._to_js(py_value)
             except RecursionError:
                 raise JSRangeError("JSON.parse: structure is nested too deeply")
